@@ -524,7 +524,13 @@ func efiGUID(g string) []byte {
 func genLocator(t *rapid.T) (uint32, []byte) {
 	typ := rapid.SampledFrom([]uint32{0, 1, 2, 3, 4, 5, 99}).Draw(t, "locType")
 	var data []byte
-	switch rapid.IntRange(0, 8).Draw(t, "locKind") {
+	switch rapid.IntRange(0, 9).Draw(t, "locKind") {
+	case 9:
+		// boundary lengths around the 16-byte GUID prefix and the 2-byte terminator
+		data = append(efiGUID(googleGUID), rapid.SliceOfN(rapid.SampledFrom([]byte{0, 0, 'a', 0xff}), 0, 4).Draw(t, "tail")...)
+		if rapid.Bool().Draw(t, "cutGuid") {
+			data = data[:rapid.IntRange(12, 16).Draw(t, "guidLen")]
+		}
 	case 0:
 		data = append(efiGUID(googleGUID), ucs2("FirmwareRIM", 1)...)
 	case 1:
